@@ -2163,6 +2163,67 @@ def translate_printers(token_py):
     return "\n".join(out) + "\n"
 
 
+FFSEL_SKELETON = '''match_dict = {}
+for rule in self._rule_dict:
+    rule_mol = Chem.MolFromSmarts(rule)
+    matches = mol.GetSubstructMatches(rule_mol)
+    for match in matches:
+        if TEST0:
+            RuntimeError("Match with more then atom, that doesn't make sense here.")
+        match = match[0]
+        try:
+            match_dict[match].append(rule)
+        except KeyError:
+            match_dict[match] = [rule]
+for atom_num in match_dict:
+    final_match = match_dict[atom_num][0]
+    for match_rule in match_dict[atom_num]:
+        if TEST1:
+            final_match = match_rule
+    match_dict[atom_num] = final_match
+final_dict = {}
+for atom_num in match_dict:
+    final_dict[atom_num] = self.get_ffparam(self.get_type(self._rule_dict[match_dict[atom_num]]))
+if TEST2:
+    raise FfAssignmentError
+return final_dict'''
+
+FFTYPES_SKELETON = '''if TEST0:
+    raise RuntimeError
+assigner = get_assignment_class(smarts_filename, nb_filename)
+mol = self.mol
+mol = Chem.AddHs(mol)
+try:
+    ffparam = assigner.get_type_assignments(mol)
+except FfAssignmentError as exc:
+    exc.attach_mol(mol)
+    raise exc
+return (ffparam, mol)'''
+
+
+def translate_ffsel(ff_py):
+    """forcefield_helper.py: SMARTS_ASSIGNMENTS.get_type_assignments; mol_gen.py: MolGen.get_forcefield_types -> Src/SrcFFSel.v"""
+    import os
+    mod = ast.parse(open(ff_py).read())
+    ts = _check_fn(_method(_class(mod, "SMARTS_ASSIGNMENTS"), "get_type_assignments", []), ["self", "mol"], [], FFSEL_SKELETON, 3, "SMARTS_ASSIGNMENTS.get_type_assignments")
+    if ast.unparse(ts[0]) != "len(match) > 1":
+        raise Unsupported("get_type_assignments: the (ineffective) multi-atom test changed")
+    gmod = ast.parse(open(os.path.join(os.path.dirname(ff_py), "mol_gen.py")).read())
+    gt = _check_fn(_method(_class(gmod, "MolGen"), "get_forcefield_types", []), ["self", "smarts_filename", "nb_filename"], ["None", "None"], FFTYPES_SKELETON, 1,
+                   "MolGen.get_forcefield_types")
+    env = Env({"len(match_rule)": ("(Z.of_nat lnew)", "Z"), "len(final_match)": ("(Z.of_nat lcur)", "Z"), "len(final_dict)": ("(Z.of_nat nassigned)", "Z")},
+              {"self.fully_generated": ("full", "bool")}, {"mol.GetNumAtoms()": ("(Z.of_nat natoms)", "Z")})
+    out = [
+        "(* generated by harness/translate_sys.py from forcefield_helper.py (get_type_assignments) and mol_gen.py (get_forcefield_types) -- do not edit *)",
+        "From Coq Require Import List ZArith Bool.",
+        "(* lnew / lcur: length of the SMARTS text of the rule looked at / of the rule kept so far (the first matching rule to begin with) *)",
+        f"Definition ff_replaces (lnew lcur : nat) : bool := {env.truth(ts[1])}.",
+        f"Definition ff_incomplete (nassigned natoms : nat) : bool := {env.truth(ts[2])}.",
+        f"Definition ff_refused (full : bool) : bool := {env.truth(gt[0])}.",
+    ]
+    return "\n".join(out) + "\n"
+
+
 def _power_expr(e):
     """arithmetic over a : Q and k : nat with integer powers (a ** 2, x ** (k - 1))"""
     if isinstance(e, ast.Name) and e.id == "a":
@@ -2206,3 +2267,4 @@ if __name__ == "__main__":
     print(translate_molparse(base + "/molecule.py"))
     print(translate_descrprint(base + "/bond.py"))
     print(translate_printers(base + "/token.py"))
+    print(translate_ffsel(base + "/forcefield_helper.py"))
